@@ -203,6 +203,7 @@ func runC16(c *an.Ctx) {
 				c.Check(okStored, "C16.c", "walk-reads-only-stored-heights", "the window search asks the store only for heights not above the store's own height (a read above it would wait for a header nobody appends while Start/Head is computing the tail)", find, gc, "", fs)
 			}
 			c.Min("C16.c", "store reads of the window search", nRead, 1)
+			c.Min("C16.c", "by-height store reads of renewTail", checkStoreReadsBounded(c, "C16.c", renew), 1)
 			c.Min("C16.c", "upward steps of the window search", nStep, 1)
 			c.Min("C16.c", "estimates feeding the window search", nInit, 2)
 		}
